@@ -251,6 +251,21 @@ class Policy:
         return []
 
 
+class CsrfStore:
+    """application CSRF storage policy: the valid token is 'ctok' (the session-based default accepts 'tok')"""
+    def __init__(self, sid):
+        self.c08_sid = sid
+
+    def new_csrf_token(self, request):
+        return 'ctok'
+
+    def get_csrf_token(self, request):
+        return 'ctok'
+
+    def check_csrf_token(self, request, supplied_token):
+        return supplied_token == 'ctok'
+
+
 class Session(dict):
     def __init__(self, request, sid=0):
         dict.__init__(self)
@@ -456,6 +471,15 @@ def declare(config, st, in_prefix=False):
             return Session(request, sid)
         sessf.c08_sid = sid
         config.set_session_factory(sessf)
+    elif k == 'csrfstore':
+        config.set_csrf_storage_policy(CsrfStore(sid))
+    elif k == 'respf':
+        def respf(request, sid=sid):
+            r = _P['Response']()
+            r.headers['X-RespF'] = 'pf%d' % sid
+            return r
+        respf.c08_sid = sid
+        config.set_response_factory(respf)
     elif k == 'reqf':
         class Req(_P['Request']):
             c08_reqf = 'rf%d' % sid
@@ -695,7 +719,7 @@ def build_variant(stmts, body, rootprefix=None):
     return out
 
 
-HEADERS = ('Content-Type', 'X-View', 'X-Tw', 'X-Sub', 'X-SubR', 'X-Root', 'X-ReqF', 'X-Ext', 'X-Deriv', 'Location')
+HEADERS = ('Content-Type', 'X-RespF', 'X-View', 'X-Tw', 'X-Sub', 'X-SubR', 'X-Root', 'X-ReqF', 'X-Ext', 'X-Deriv', 'Location')
 
 
 def probe(app, p):
@@ -778,7 +802,8 @@ def registrations(b, stmts):
         if rs:
             out['routes'] = rs
     for iface, key in ((I.ISecurityPolicy, 'policy'), (I.IRootFactory, 'rootf'), (I.ISessionFactory, 'sessf'),
-                       (I.IRequestFactory, 'reqf'), (I.IViewMapperFactory, 'mapper')):
+                       (I.IRequestFactory, 'reqf'), (I.IViewMapperFactory, 'mapper'),
+                       (I.ICSRFStoragePolicy, 'csrfstore'), (I.IResponseFactory, 'respf')):
         u = q(iface)
         if u is not None and hasattr(u, 'c08_sid'):
             out[key] = [u.c08_sid]
